@@ -45,7 +45,7 @@ Definition form_ok (csid form : N) : bool :=
 
 Definition chunk_wf (c : chunk) : bool :=
   (c_fmt c <=? 3) && form_ok (c_csid c) (c_form c) && (c_field c <? 4294967296) && (c_len c <? 16777216) &&
-  (c_tid c <? 256) && (c_sid c <? 4294967296) && forallb (fun b => b <? 256) (c_payload c) &&
+  (c_tid c <? 256) && (c_sid c <? 4294967296) &&
   (* fields a format omits are 0 in the record *)
   (if 2 <=? c_fmt c then (c_len c =? 0) && (c_tid c =? 0) else true) && (if 1 <=? c_fmt c then c_sid c =? 0 else true).
 
